@@ -74,6 +74,10 @@ def _ops(draw, kind, d, cfg, allow_long=True):
             ops.append(["restart"])
         else:
             ops.append(["exchange", draw(st.integers(0, 2 ** 16))])
+    if kind != "ensemble" and cfg.get("bounds") is not None and draw(st.integers(0, 3)) == 0:
+        # a ladder of mixed limits: the partner of the last exchange has no bounds and hands over a point outside this
+        # chain's box (the history ends there: a bounded sampler outside its box is not a state to step from)
+        ops.append(["exchange_stray", draw(st.integers(0, 2 ** 16))])
     return ops
 
 
@@ -172,6 +176,24 @@ def run_ops(h, ops, V, stats, inputs, snap, xrng, scribble_ok=False):
                     _viol(V, "exchange.installed", "%s: after an exchange installing %r the last recorded sample is %r"
                           % (h.label, pos.tolist(), S[-1].tolist()))
                 stats["fault_exchange_installs_foreign_point"] += 1
+            elif name == "exchange_stray":
+                g = np.random.Generator(np.random.PCG64([op[1], 19]))
+                lo_, hi_ = np.asarray(h.cfg["bounds"][0], dtype=float), np.asarray(h.cfg["bounds"][1], dtype=float)
+                pos = lo_ + (hi_ - lo_) * g.random(h.d)
+                k_ = int(g.integers(0, h.d))
+                pos[k_] = hi_[k_] + (hi_[k_] - lo_[k_]) * float(g.uniform(0.05, 0.8)) if g.random() < 0.5 else \
+                    lo_[k_] - (hi_[k_] - lo_[k_]) * float(g.uniform(0.05, 0.8))
+                L = h.target.logpdf(pos)
+                if np.isnan(L):
+                    return  # (a target that is undefined outside the box cannot have been the partner's density)
+                lc.op_exchange(h, pos, L)
+                stats["fault_exchange_installs_point_outside_the_bounds"] += 1
+                S, P = h.rows()
+                bad = oracles.check_probs_belong(h.chain, h.target, h.T, start=max(0, S.shape[0] - 1), label=h.label + " ")
+                for b in bad[:1]:
+                    _viol(V, "probs.belong", "after an exchange that handed over the point %r (outside the chain's own bounds) with "
+                          "log-density %r: %s" % (pos.tolist(), L, b))
+                return
             elif name == "limits":
                 if lc.op_limits(h, op[1], op[2], op[3]):
                     stats["op_limits_changed_on_live_chain"] += 1
